@@ -178,6 +178,34 @@ func (p c18) battery(env *Env) (*Case, []*Out) {
 			}
 		}
 	}
+	// every defect kind, unwrapped, at the first position class of each family, under other option sets: a check
+	// that lives next to code which an option switches off (--only-models: no unmarshalers, no enum tables)
+	// must not go with it
+	optSets := []func(o *Options){
+		func(o *Options) { o.OnlyModels = true },
+		func(o *Options) { o.MinSized, o.Extra = true, true },
+		func(o *Options) { o.OnlyModels, o.MinSized, o.TitleNames = true, true, true },
+	}
+	famSeen := map[string]bool{}
+	for _, s := range sites {
+		fam := s.class
+		if i := strings.IndexAny(fam, ":+"); i >= 0 {
+			fam = fam[:i]
+		}
+		if famSeen[fam] || strings.HasPrefix(s.class, "refbranch") {
+			continue
+		}
+		famSeen[fam] = true
+		for oi, set := range optSets {
+			w2 := *w
+			set(&w2.Opts)
+			for _, k := range defectKinds {
+				buildDefect(&w2, args, t0, s, k, "none", 0, func(label string, spec simrt.Spec, mr c18Run) *Out {
+					return add(fmt.Sprintf("%s opts=%d", label, oi+1), spec, mr)
+				}, "")
+			}
+		}
+	}
 	// every oddity alone at a property position, under two option sets
 	for _, o := range oddities {
 		for _, opt := range []int{0, 1} {
